@@ -258,7 +258,112 @@ func H_C06_positional(v *V) {
 	}
 }
 
+var c06Ran int
+
+type c06PSub struct {
+	Pos struct {
+		Name string `required:"yes"`
+	} `positional-args:"yes"`
+}
+
+func (c *c06PSub) Execute(args []string) error { c06Ran++; return nil }
+
+type c06PC0 struct {
+	V   bool `short:"v"`
+	Pos struct {
+		Files []string `required:"1-2"`
+	} `positional-args:"yes"`
+	Add c06PSub `command:"add"`
+}
+type c06PC1 struct {
+	V   bool `short:"v"`
+	Pos struct {
+		First string `required:"yes"`
+	} `positional-args:"yes"`
+	Add c06PSub `command:"add"`
+}
+type c06PC2 struct {
+	V   bool `short:"v"`
+	Pos struct {
+		N []string `required:"2"`
+	} `positional-args:"yes"`
+	Add c06PSub `command:"add"`
+}
+
+// H_C06_poscmd: a command that declares per-field positional constraints AND
+// a subcommand: a word spelling the subcommand's name does not excuse the
+// parent's unmet positional arguments.
+func H_C06_poscmd(v *V) {
+	decl := v.Shape("decl")
+	k := v.Choice(4)
+	var words []string
+	var argv []string
+	for i := 0; i < k; i++ {
+		if v.Choice(2) == 1 {
+			words = append(words, "add")
+		} else {
+			w := v.String(1)
+			v.Assume(w != "-")
+			words = append(words, "w"+w)
+		}
+		if i == 0 && v.Choice(2) == 1 {
+			argv = append(argv, "-v")
+		}
+		argv = append(argv, words[i])
+	}
+	c06Ran = 0
+	p := NewNamedParser("prog", PassDoubleDash)
+	p.SubcommandsOptional = true
+	var okWant bool
+	var filled func() int
+	switch decl {
+	case 0:
+		d := &c06PC0{}
+		p.AddGroup("Application Options", "", d)
+		okWant = k >= 1 && k <= 2
+		filled = func() int { return len(d.Pos.Files) }
+	case 1:
+		d := &c06PC1{}
+		p.AddGroup("Application Options", "", d)
+		okWant = k >= 1 && (k == 1 || words[1] != "add" || k >= 3)
+		filled = func() int {
+			if d.Pos.First != "" {
+				return 1
+			}
+			return 0
+		}
+	case 2:
+		d := &c06PC2{}
+		p.AddGroup("Application Options", "", d)
+		okWant = k >= 2
+		filled = func() int { return len(d.Pos.N) }
+	}
+	_, err := p.ParseArgs(argv)
+	vObsErr(v, err)
+	v.ObserveInt("filled", filled())
+	if err == nil {
+		v.Reach("success")
+		n := filled()
+		switch decl {
+		case 0:
+			v.Assert(n >= 1 && n <= 2, "a parse succeeds only if the parent command's positional count constraint (1-2) is met")
+		case 1:
+			v.Assert(n == 1, "a parse succeeds only if the parent command's required positional argument was supplied")
+		case 2:
+			v.Assert(n >= 2, "a parse succeeds only if the parent command's positional count constraint (2) is met")
+		}
+	}
+	v.Assert((err == nil) == okWant, "the words fill the parent's positional arguments before any of them can name a subcommand")
+	if err != nil {
+		v.Reach("unmet")
+		t, typed := vErrType(err)
+		v.Assert(typed && t == ErrRequired, "an unmet positional constraint fails with ErrRequired")
+		v.Assert(c06Ran == 0, "nothing is executed when a positional constraint is unmet")
+	}
+}
+
 func init() {
+	vHarnesses["H_C06_poscmd"] = H_C06_poscmd
 	vHarnesses["H_C06_required"] = H_C06_required
 	vHarnesses["H_C06_positional"] = H_C06_positional
 }
